@@ -188,19 +188,29 @@ def _is_logical(e):
     return False
 
 
-def _forced_leaves(e, truth):
+def _forced_leaves(e, truth, env=None):
     """[(operand, its truth)] forced by the whole expression having the given truth: all conjuncts of a true
-    conjunction, all disjuncts of a false disjunction (through `!` and parentheses)."""
+    conjunction, all disjuncts of a false disjunction (through `!` and parentheses); and, with the outcomes of the
+    operands already evaluated on this path (env), the remaining operand of a false conjunction whose other side
+    held / of a true disjunction whose other side failed."""
     while isinstance(e, dict) and e.get('k') in ('paren', 'cast') and isinstance(e.get('e'), dict):
         e = e['e']
     if not isinstance(e, dict):
         return []
     if e.get('k') == 'un' and e.get('op') == '!':
-        return _forced_leaves(e['e'], not truth)
-    if e.get('k') == 'bin' and e.get('op') == '&&':
-        return _forced_leaves(e['l'], True) + _forced_leaves(e['r'], True) if truth else []
-    if e.get('k') == 'bin' and e.get('op') == '||':
-        return _forced_leaves(e['l'], False) + _forced_leaves(e['r'], False) if not truth else []
+        return _forced_leaves(e['e'], not truth, env)
+    if e.get('k') == 'bin' and e.get('op') in ('&&', '||'):
+        conj = e['op'] == '&&'
+        if truth == conj:
+            return _forced_leaves(e['l'], truth, env) + _forced_leaves(e['r'], truth, env)
+        if env is not None:
+            a, b = _eval_logical(e['l'], env), _eval_logical(e['r'], env)
+            neutral = 1 if conj else 0
+            if a == neutral and b is None:
+                return _forced_leaves(e['r'], truth, env)
+            if b == neutral and a is None:
+                return _forced_leaves(e['l'], truth, env)
+        return []
     return [(e, truth)]
 
 
@@ -746,6 +756,9 @@ class Explorer:
                 atom, sense = norm_cond(term['cond'])
                 shortcut = kind == 'BinaryOperator'
                 decided = None
+                forced = None
+                if not shortcut and _is_logical(term['cond']):
+                    forced = {True: _forced_leaves(term['cond'], True, env), False: _forced_leaves(term['cond'], False, env)}
                 if not shortcut and any(k[0] == 'lc' for k in env):
                     if _is_logical(term['cond']):
                         decided = _eval_logical(term['cond'], env)
@@ -762,7 +775,7 @@ class Explorer:
                     if not shortcut and _is_logical(term['cond']):
                         # a compound condition tested as a whole (it was kept in a local first): on the edge where a
                         # conjunction held every conjunct held, where a disjunction failed every disjunct failed
-                        for leaf, lsense in _forced_leaves(term['cond'], idx == 0):
+                        for leaf, lsense in (forced or {}).get(idx == 0, []):
                             a2, s2 = norm_cond(leaf)
                             env2 = self._refine(a2, s2 == lsense, env2)
                             if env2 is None:
